@@ -25,12 +25,32 @@ def worker(job):
         kw = dict(cleavage_rule='trypsin', cleavage_exception=rng.choice([None, None, 'auto']),
                   miscleavage=rng.choice([0, 1, 2, 2]), min_mw=rng.choice([300., 500., 800.]),
                   min_length=rng.choice([5, 7, 9]), max_length=rng.choice([15, 25, 40]))
+        coding_orf = rng.random() < 0.35
+        if coding_orf and kw['cleavage_exception'] is None and rng.random() < 0.7:
+            # --coding-novel-orf re-derives the peptides of the annotated proteins: put the maximum
+            # length exactly ONE BELOW an N-terminal cleavage product (with 0..miscleavage missed
+            # sites, initiator Met included) of one of them — its Met-removed form then has exactly
+            # the maximum length, is canonical, and must not be reported
+            import re as _re
+            prots = [str(v.seq) for k, v in proteome.items()
+                     if str(v.seq).startswith('M') and k in anno.transcripts
+                     and not anno.transcripts[k].is_cds_start_nf()]
+            cands = []
+            for pr in prots:
+                pr = pr.split('*')[0]
+                sites = [m.end() for m in _re.finditer(r'([KR](?=[^P]))|((?<=W)K(?=P))|((?<=M)R(?=P))', pr)]
+                for e_ in (sites + [len(pr)])[:kw['miscleavage'] + 1]:
+                    if 8 <= e_ - 1 <= 60:
+                        cands.append(e_ - 1)
+            if cands:
+                kw['max_length'] = rng.choice(cands)
+                out['stats']['max_length_one_below_an_n_terminal_product'] = 1
         args = gen_ref.call_variant_args(case, case.dir / 'orf.fasta', **kw)
         args.command = 'callNovelORF'
         args.min_tx_length = rng.choice([21, 21, 300, 900])
         args.orf_assignment = rng.choice(['max', 'min'])
         args.w2f_reassignment = rng.random() < 0.4
-        args.coding_novel_orf = rng.random() < 0.35
+        args.coding_novel_orf = coding_orf
         incl = excl = None
         r = rng.random()
         if r < 0.2:
@@ -81,7 +101,14 @@ def worker(job):
                         fh.write(f'>COLLP{n_}|COLLT{n_}|COLLG{n_}|XXX\nMAGGSK{q}\n')
                 out['stats']['canonical_collision_inputs'] = 1
                 out['stats']['canonical_collisions'] = len(picks)
-        canon = pipe.canonical_pool(case, **kw)
+        # "canonical" is judged by the digest MODEL of C10 (Lean peptidePool on the proteome text and
+        # the cds_start_NF flags), not by the pool the code under test builds
+        canon = pipe.lean_canonical_pool(case, **kw)
+        if canon is None:
+            out['stats']['lean_pool_unavailable'] = 1
+            canon = pipe.canonical_pool(case, **kw)
+        else:
+            out['stats']['lean_pool_inputs'] = 1
         status = 'ok'
         try:
             with gen_ref.quiet():
